@@ -1587,6 +1587,59 @@ def probes():
         [] if isinstance(_data.expect(q.sigmaz().data, make_state("dm", "C").data), complex)
         else ["_data.expect does not return a Python complex"])
 
+    def _to_create():
+        bad = []
+        D = _data.Dense(np.eye(2, dtype=complex))
+        if _data.to(_data.Dense, D) is not D:
+            bad.append("_data.to(type, x) of the same type is not x (summary says: x or new)")
+        bad += check(lambda x: _data.to(_data.CSR, x), [D], name="_data.to(other type)")
+        bad += check(lambda x: _data.create(x), [D], name="_data.create(Data)")
+        bad += check(lambda x: _data.create(x), [np.eye(2)], name="_data.create(ndarray)")
+        bad += check(lambda x: _data.create(x, copy=True), [np.eye(2, dtype=complex)],
+                     name="_data.create(ndarray, copy=True)")
+        r = _data.create(D, copy=False)
+        if r is not D and mutable_ids(q.Qobj(r, copy=False)) & mutable_ids(q.Qobj(D, copy=False)) == set():
+            pass
+        return bad
+    P["data_to_create"] = _to_create
+    P["superop_reps_fresh"] = lambda: sum([check(f, [X], fresh=False, name="superop_reps")
+                                           for X in (q.to_super(q.sigmax()), q.to_choi(q.to_super(q.sigmax())))
+                                           for f in (q.to_choi, q.to_super, q.to_kraus)], [])
+
+    def _prop_call():
+        Pp = q.Propagator(q.QobjEvo([q.sigmaz(), [q.sigmax(), f_t]]), options={"progress_bar": False})
+        return _attrs_written(Pp, lambda p: p(0.3), ["times", "props", "invs", "solver", "args", "cte", "unitary"],
+                              "Propagator.__call__") + \
+            check(lambda p, t: p(t), [Pp, 0.5], mut=(0,), name="Propagator.__call__")
+    P["propagator_call"] = _prop_call
+
+    def _fb_methods():
+        fb = q.FloquetBasis(q.QobjEvo([q.sigmaz(), [q.sigmax(), f_sin]]), 1.0)
+        psi = make_state("ket", "C")
+        bad = check(lambda b, p: b.to_floquet_basis(p, 0.2), [fb, psi], mut=(0,), name="to_floquet_basis")
+        co = fb.to_floquet_basis(psi, 0.2)
+        bad += check(lambda b, c: b.from_floquet_basis(c, 0.3), [fb, co], mut=(0,), name="from_floquet_basis")
+        bad += check(lambda b: b.mode(0.3), [fb], mut=(0,), name="mode")
+        bad += check(lambda b: b.state(0.3), [fb], mut=(0,), name="state")
+        v1 = [m.full() for m in fb.mode(0.3)]
+        v2 = [m.full() for m in fb.mode(0.3)]
+        if not all(np.allclose(a, b) for a, b in zip(v1, v2)):
+            bad.append("FloquetBasis.mode is not repeatable")
+        return bad
+    P["floquet_basis_methods"] = _fb_methods
+
+    def _result():
+        from qutip.solver.result import Result
+        opts = {"store_states": True, "store_final_state": False, "normalize_output": False}
+        bad = check(lambda e, o: Result(e, o, solver="x"), [[q.sigmaz()], opts], name="Result()")
+        r = Result([q.sigmaz()], opts, solver="x")
+        bad += check(lambda rr, t, s_: rr.add(t, s_), [r, 0.5, make_state("ket", "C")], mut=(0,),
+                     fresh=False, name="Result.add")
+        bad += check(lambda rr, t, s_: rr.add(t, s_), [r, 0.7, make_state("dm", "F")], mut=(0,),
+                     fresh=False, name="Result.add")
+        return bad
+    P["result_ctor_add"] = _result
+
     def _reshape():
         from qutip.core.data.reshape import column_stack_dense, column_unstack_dense
         bad = []
@@ -1969,7 +2022,12 @@ def _run(ctx):
         "(QobjEvo constructor and methods, solver constructors and front ends, coefficients) are "
         "obligations of their own; callbacks passed by the caller are assumed pure; type facts used for "
         "`x += ...` (Qobj / Python numbers rebind, locally built lists extend) are probed",
-        "exclusive ownership of a QobjEvo's containers: proved relative to the caller's objects "
+        "Qobj: the constructor is translated in both documented modes (copy=True: the data object "
+        "is created in the call, exit assertion; copy=False: documented opt-out, no assertion); a "
+        "translated function that builds `Qobj(x, copy=False)` must prove x was created in the call; "
+        "`x.data` and `x._data` are one field; type fact: in Qobj.to the conversion is only reached "
+        "for another type (probed)",
+        "exclusive ownership of a QobjEvo's containers and of a Qobj's data object: proved relative to the caller's objects "
         "(store-time and constructor-exit assertions + C04_owned_container_not_shared_with_caller); "
         "exclusivity among objects created during one and the same call is confirmed by the "
         "operation-sequence correspondence only",
